@@ -35,23 +35,28 @@ theorem applyBufs_optCr (w h : Nat) (b : Buf) (c : Bool) (hc : b.cc = 0) (hp : b
   · simp
   · simp [applyBuf_cr_noop w h b hc hp]
 
-theorem truncateLine_length_le (w : Nat) (l : Line) : (truncateLine w l).length ≤ w := by
-  simp [truncateLine, List.length_take]
-  omega
+/-- a cut line takes at most `w` cells (its escape sequences are all kept, they take none) -/
+theorem truncateLine_width_le (w : Nat) (l : Line) : lineWidth (truncateLine w l) ≤ w :=
+  Ansi.width_truncate_le w l
 
-/-- a step of the paint loop that is not the last one: row `cr` ends up showing line `l`
+/-- what a cut line shows: the first `w` visible bytes of the line -/
+theorem visible_truncateLine (w : Nat) (l : Line) :
+    Ansi.visible (truncateLine w l) = (Ansi.visible l).take w := Ansi.visible_truncate w l
+
+/-- a step of the paint loop that is not the last one: row `cr` ends up showing (the visible part
+of) line `l`
 (painted, or skipped because it already shows it), no other row changes, and the cursor goes
 to the start of the next row, scrolling if it was on the last window row -/
 theorem paintLine_step_mid (r : RState) (fq sh : Bool) (n i : Nat) (l : Line) (w h : Nat) (b : Buf)
     (hw : r.width = w) (hw1 : 1 ≤ w) (hi : i + 1 < n) (hc : b.cc = 0) (hp : b.pw = false)
-    (hskip : canSkip r fq sh n i l = true → rowShows w b b.cr l) :
+    (hskip : canSkip r fq sh n i l = true → rowShows w b b.cr (Ansi.visible l)) :
     (applyBufs w h b (paintLineOps r fq sh n i l)).cr = b.cr + 1 ∧
     (applyBufs w h b (paintLineOps r fq sh n i l)).cc = 0 ∧
     (applyBufs w h b (paintLineOps r fq sh n i l)).pw = false ∧
     (applyBufs w h b (paintLineOps r fq sh n i l)).top
         = (if b.cr + 1 = b.top + h then b.top + 1 else b.top) ∧
     (∀ ρ, ρ ≠ b.cr → ∀ c, (applyBufs w h b (paintLineOps r fq sh n i l)).cells ρ c = b.cells ρ c) ∧
-    rowShows w (applyBufs w h b (paintLineOps r fq sh n i l)) b.cr l := by
+    rowShows w (applyBufs w h b (paintLineOps r fq sh n i l)) b.cr (Ansi.visible l) := by
   have hlt : i < n - 1 := by omega
   have hne : (i == n - 1) = false := by simp; omega
   cases hs : canSkip r fq sh n i l with
@@ -65,24 +70,24 @@ theorem paintLine_step_mid (r : RState) (fq sh : Bool) (n i : Nat) (l : Line) (w
       applyBufs_optCr w h b _ hc hp, hne, Bool.and_false]
     simp only [Bool.false_eq_true, if_false, List.nil_append, if_pos hlt, applyBufs_append]
     obtain ⟨p1, p2, _, p4, p5⟩ := lineOps_spec w h b (truncateLine w l) hw1
-      (truncateLine_length_le w l) hc hp
+      (truncateLine_width_le w l) hc hp
     rw [hw]
     simp only [applyBufs_cons, applyBufs_nil, applyBuf_lf_cr, applyBuf_lf_cc, applyBuf_lf_pw,
       applyBuf_lf_top, applyBuf_lf_cells, applyBuf_cr_cr, applyBuf_cr_cc, applyBuf_cr_top,
       applyBuf_cr_cells, p1, p2, true_and]
     refine ⟨p4, ?_⟩
-    exact rowShows_congr (fun c => by simp) ((rowShows_take w _ b.cr l).1 p5)
+    exact rowShows_congr (fun c => by simp) ((rowShows_take w _ b.cr (Ansi.visible l)).1 (visible_truncateLine w l ▸ p5))
 
 /-- the last step of the paint loop: row `cr` ends up showing `l`; rows above are untouched;
 rows below are untouched, or, when the view shrinks, blank to the end of the window (ED0) -/
 theorem paintLine_step_last (r : RState) (fq sh : Bool) (n i : Nat) (l : Line) (w h : Nat) (b : Buf)
     (hw : r.width = w) (hw1 : 1 ≤ w) (hi : i + 1 = n) (hc : b.cc = 0) (hp : b.pw = false)
-    (hskip : canSkip r fq sh n i l = true → rowShows w b b.cr l) :
+    (hskip : canSkip r fq sh n i l = true → rowShows w b b.cr (Ansi.visible l)) :
     (applyBufs w h b (paintLineOps r fq sh n i l)).cr = b.cr ∧
     (applyBufs w h b (paintLineOps r fq sh n i l)).cc < w ∧
     (applyBufs w h b (paintLineOps r fq sh n i l)).top = b.top ∧
     (∀ ρ, ρ < b.cr → ∀ c, (applyBufs w h b (paintLineOps r fq sh n i l)).cells ρ c = b.cells ρ c) ∧
-    rowShows w (applyBufs w h b (paintLineOps r fq sh n i l)) b.cr l ∧
+    rowShows w (applyBufs w h b (paintLineOps r fq sh n i l)) b.cr (Ansi.visible l) ∧
     (sh = false → ∀ ρ, b.cr < ρ →
       ∀ c, (applyBufs w h b (paintLineOps r fq sh n i l)).cells ρ c = b.cells ρ c) ∧
     (sh = true → ∀ ρ, b.cr < ρ → ρ < b.top + h →
@@ -105,16 +110,16 @@ theorem paintLine_step_last (r : RState) (fq sh : Bool) (n i : Nat) (l : Line) (
     | false =>
       simp only [Bool.false_eq_true, if_false, List.nil_append]
       obtain ⟨p1, p2, p3, p4, p5⟩ := lineOps_spec w h b (truncateLine w l) hw1
-        (truncateLine_length_le w l) hc hp
-      refine ⟨p2, p3.1, p1, fun ρ hρ c => p4 ρ (by omega) c, (rowShows_take w _ b.cr l).1 p5,
+        (truncateLine_width_le w l) hc hp
+      refine ⟨p2, p3.1, p1, fun ρ hρ c => p4 ρ (by omega) c, (rowShows_take w _ b.cr (Ansi.visible l)).1 (visible_truncateLine w l ▸ p5),
         fun _ ρ hρ c => p4 ρ (by omega) c, ?_⟩
       intro h1; cases h1
     | true =>
       simp only [if_true, applyBufs_append, applyBufs_cons, applyBufs_nil]
       obtain ⟨p1, p2, p3, p4, p5⟩ := lineOps_spec w h (applyBuf w h b .ed0) (truncateLine w l) hw1
-        (truncateLine_length_le w l) (by simpa using hc) (by simpa using hp)
+        (truncateLine_width_le w l) (by simpa using hc) (by simpa using hp)
       simp only [applyBuf_ed0_cr, applyBuf_ed0_top] at p1 p2 p4 p5
-      refine ⟨p2, p3.1, p1, ?_, (rowShows_take w _ b.cr l).1 p5, ?_, ?_⟩
+      refine ⟨p2, p3.1, p1, ?_, (rowShows_take w _ b.cr (Ansi.visible l)).1 (visible_truncateLine w l ▸ p5), ?_, ?_⟩
       · intro ρ hρ c
         rw [p4 ρ (by omega) c, applyBuf_ed0_cells, if_neg (by omega), if_neg (by omega)]
       · intro h1; cases h1
@@ -130,12 +135,12 @@ window scrolled by exactly what was needed to keep the cursor inside. -/
 theorem paintOps_spec (r : RState) (fq sh : Bool) (n w h : Nat) (hw : r.width = w) (hw1 : 1 ≤ w) :
     ∀ (rest : List Line) (i : Nat) (b : Buf), i + rest.length = n → rest ≠ [] →
       b.cc = 0 → b.pw = false → b.cr < b.top + h →
-      (∀ j l, rest[j]? = some l → canSkip r fq sh n (i + j) l = true → rowShows w b (b.cr + j) l) →
+      (∀ j l, rest[j]? = some l → canSkip r fq sh n (i + j) l = true → rowShows w b (b.cr + j) (Ansi.visible l)) →
       (applyBufs w h b (paintOps r fq sh n i rest)).cr + 1 = b.cr + rest.length ∧
       (applyBufs w h b (paintOps r fq sh n i rest)).cc < w ∧
       (applyBufs w h b (paintOps r fq sh n i rest)).top = max b.top (b.cr + rest.length - h) ∧
       (∀ j l, rest[j]? = some l →
-        rowShows w (applyBufs w h b (paintOps r fq sh n i rest)) (b.cr + j) l) ∧
+        rowShows w (applyBufs w h b (paintOps r fq sh n i rest)) (b.cr + j) (Ansi.visible l)) ∧
       (∀ ρ, ρ < b.cr → ∀ c, (applyBufs w h b (paintOps r fq sh n i rest)).cells ρ c = b.cells ρ c) ∧
       (sh = false → ∀ ρ, b.cr + rest.length ≤ ρ →
         ∀ c, (applyBufs w h b (paintOps r fq sh n i rest)).cells ρ c = b.cells ρ c) ∧
